@@ -12,7 +12,7 @@
 From Coq Require Import List String ZArith Bool.
 Import ListNotations.
 From Anthem Require Import Syntax.Fol Syntax.Tff Sem.TffWt Model.Problem Model.TptpPrint Model.ProblemPrint
-  Proofs.PipelineOk Proofs.ProblemWt.
+  Proofs.PipelineOk Proofs.ProblemWt Proofs.ClosedOk.
 Open Scope string_scope.
 
 Definition IdentClass (pb : problem) : Prop := ident_ok pb = false.
@@ -43,6 +43,13 @@ Theorem C09_names_unique :
   In pb (pipeline raw d) -> NoDup (map pf_name (pb_formulas pb)).
 Proof. exact pipeline_names_nodup. Qed.
 Print Assumptions C09_names_unique.
+
+(* the premise of C09 in terms of the implementation's own notion: a formula of the parser image
+   (every quantifier binds a variable) whose free_variables() set is empty is closed *)
+Theorem C09_closed :
+  forall F : formula, binders_nonempty F = true -> free_variables F = [] -> closed_formula F = true.
+Proof. exact closed_of_fv. Qed.
+Print Assumptions C09_closed.
 
 (* ---------- non-vacuity: a clean problem type-checks ---------- *)
 Definition one (f : formula) : problem := mkproblem "w" [mkpf "c" PConjecture f].
